@@ -37,6 +37,11 @@ pub fn has_any_self_by_value<'s>(
             receiver.reference.is_none()
                 && matches!(receiver.ty.as_ref(), syn::Type::Path(ty) if ty.path.is_ident("Self"))
         }
+        // the by-value `__impl: Impl<EntraitT>` of a fn in an impl block
+        Some(syn::FnArg::Typed(pat_type)) => {
+            matches!(pat_type.pat.as_ref(), syn::Pat::Ident(pat_ident) if pat_ident.ident == "__impl")
+                && !matches!(pat_type.ty.as_ref(), syn::Type::Reference(_))
+        }
         _ => false,
     }))
 }
